@@ -65,6 +65,18 @@ def classify(nn, site, atom, pol, dinfo):
             if nn.map_info(q, y) is not None and ((op == "in") == pol):
                 return ("struct", "key-present")
             return ("unknown", "membership test outside the lemma table")
+    if h == "or" and pol:
+        # (not flag) or i != j   ==   not (flag and i == j)
+        neg = {"==": "!=", "!=": "==", "is": "isnot", "isnot": "is"}
+
+        def negate(p):
+            p = strip(p)
+            if head(p) == "un" and p[1] == "not":
+                return strip(p[2])
+            if head(p) == "cmp" and p[1] in neg:
+                return ("cmp", neg[p[1]], p[2], p[3])
+            return ("un", "not", p)
+        return classify(nn, site, ("and", tuple(negate(p) for p in a[1])), False, dinfo)
     if h == "and" and not pol:
         # not (flag and i == j)
         parts = [strip(p) for p in a[1]]
@@ -650,7 +662,26 @@ def check_bfs(r, rule):
     v = strip(visit.iterable)
     snap = (is_mcall(v, "copy") and strip(strip(v[1])[1]) == strip(ret)) or \
            (is_call(v) and head(strip(v[1])) == "glob" and strip(v[1])[1] in ("builtins.list", "builtins.tuple", "builtins.dict", "builtins.set") and v[2] and strip(v[2][0]) == strip(ret))
-    r.rep.ob(rule, q, snap, "every string visited so far is expanded (snapshot of the ball)", wh(r, q, visit.node), expected="for seq in ans.copy()", found=show(v, 60), key="bfs snapshot")
+    front = None
+    if not snap and head(v) == "phi" and v[1] == depth.lid:
+        # frontier idiom: the strings first reached in the previous round are expanded (all older ones have been expanded before)
+        F = v[2]
+        finit = strip(depth.init.get(F, NONE))
+        ok_f0 = head(finit) in ("list", "tuple", "set") and tuple(map(strip, finit[1])) == (query,)
+        upd = strip(depth.update.get(F, NONE))
+        NF = upd[2] if head(upd) == "after" and upd[1] == visit.lid else None
+        nf0 = strip(visit.init.get(NF, NONE)) if NF else NONE
+        ok_nf0 = head(nf0) in ("list", "set") and not nf0[1] or (is_call(nf0) and head(strip(nf0[1])) == "glob" and strip(nf0[1])[1] in ("builtins.list", "builtins.set") and not nf0[2])
+        adds = [x for x in s.events_of("mutate") if x["name"] == NF and x["method"] in ("append", "add")] if NF else []
+        ok_add = len(adds) == 1 and len(adds[0]["args"]) == 1 and strip(adds[0]["args"][0]) == gen.elem and adds[0].ctx.loops == e.ctx.loops and adds[0].ctx.guards == e.ctx.guards
+        others = [x for x in s.events_of("mutate") if x["name"] in (F, NF) and x not in adds]
+        front = ok_f0 and NF is not None and ok_nf0 and ok_add and not others
+        r.rep.ob(rule, q, front, "every string first reached in the previous round is expanded (frontier of the ball: starts as [query], is replaced by the strings inserted in the round)",
+                 wh(r, q, visit.node), expected="frontier = [query]; per round: next = []; ... ans[new] = depth; next.append(new); frontier = next", found=show(v, 60), key="bfs snapshot")
+    elif not snap and not any(x == strip(ret) for x in walk(v)):
+        r.rep.require(False, f"{q}: the expansion loop iterates {show(v, 60)}, neither a snapshot of the ball nor a frontier list; cannot decide [{rule}]")
+    else:
+        r.rep.ob(rule, q, snap, "every string visited so far is expanded (snapshot of the ball)", wh(r, q, visit.node), expected="for seq in ans.copy()", found=show(v, 60), key="bfs snapshot")
     gi = strip(gen.iterable)
     okg = head(gi) == "call" and len(gi[2]) == 1 and not gi[3] and strip(gi[2][0]) == visit.elem
     fn = strip(gi[1]) if head(gi) == "call" else None
@@ -840,6 +871,30 @@ def check_index_builder(r, rule):
                      expected="_comb_gen(seq, max_edits)", found=show(e["term"], 70), key=f"comb k {fq}")
     if n < 2:
         raise AnalysisBroken(f"only {n} call(s) to _comb_gen found, floor is 2")
+    # the query side reads the dictionary under exactly the variants of the query string
+    lq = MOD + "SymdelDB.lookup"
+    ls = nn.summary(lq)
+    r.rep.analysed(lq)
+    reads = []
+    for e in ls.events:
+        if e.kind == "load_sub":
+            mi = nn.map_info(lq, e["obj"])
+            if mi and mi["key"][0] == "variant":
+                reads.append((e, e["index"]))
+        elif e.kind == "call" and is_mcall(e["term"], "get") and strip(e["term"])[2]:
+            mi = nn.map_info(lq, strip(strip(e["term"])[1])[1])
+            if mi and mi["key"][0] == "variant":
+                reads.append((e, strip(e["term"])[2][0]))
+    msub = nn.R.mode_subst(lq, MODES[0])
+    for e, key in reads:
+        k = strip(fold(key, msub))
+        okk = head(k) in ("iter", "citer") and is_call(strip(k[-1]), MOD + "_comb_gen")
+        if okk:
+            el = nn.elem_of(lq, strip(k[-1])[2][0]) if strip(k[-1])[2] else None
+            okk = el is not None and el[0] == nn.root(role_term(nn, lq, "SEQS2"))[0]
+        r.rep.ob(rule, lq, okk, "the variant dictionary is read under a deletion variant of the query itself (the key is the loop variable over _comb_gen(query, k))", wh(r, lq, e.node),
+                 expected="variant_dict[comb] / .get(comb) with comb ranging over _comb_gen(query, max_edits)", found=show(key, 80), key="lookup key")
+    r.rep.require(len(reads) >= 1, f"{lq}: no read of the variant dictionary found; candidate generation cannot be decided [{rule}]")
 
 
 # =========================================================================== kd-tree configuration (C04 / C11)
